@@ -152,6 +152,12 @@ class SubWriterTask(Process):
 
     def cancel(self):
         self.running = False
+        # Setting the flag only changes the parent's copy of this object; the
+        # process itself is blocked on the job queue (or busy indexing) and
+        # works in the temporary storage the parent is about to destroy
+        if self.is_alive():
+            self.terminate()
+            self.join()
 
 
 class MpWriter(SegmentWriter):
